@@ -159,7 +159,9 @@ func (c *fconn) Prepare(q string) (driver.Stmt, error) {
 
 func (c *fconn) Close() error { return nil }
 
-func (c *fconn) Begin() (driver.Tx, error) { return c.BeginTx(context.Background(), driver.TxOptions{}) }
+func (c *fconn) Begin() (driver.Tx, error) {
+	return c.BeginTx(context.Background(), driver.TxOptions{})
+}
 
 func (c *fconn) BeginTx(context.Context, driver.TxOptions) (driver.Tx, error) {
 	c.d.mu.Lock()
@@ -607,7 +609,6 @@ type Outcome struct {
 	BodyEnd    string // "" (not run), "nil", "err", "panic"
 	BodyErr    error  // what the body returned
 	PanicToken string // a token contained in the panic value ("" if the value has none)
-	Issued     int    // statements the body issued that must reach the driver
 	InnerRuns  int    // runs of the body of a nested Transact (must stay 0)
 	Log        []string
 	Harness    []string // statement results that contradict the plan
@@ -626,7 +627,7 @@ type panicStruct struct {
 // what was observed.  d's log must be empty (Cut) before the call.
 func Run(sub Subject, nest NestFn, d *FaultDB, p Plan) (out Outcome) {
 	d.Arm(p.Begin == BeginConnectFail, p.Begin == BeginFails, p.CommitFail, p.RollbackFail)
-	ctx, cancel := context.WithCancel(context.WithValue(context.Background(), ctxKey{}, d.Name))
+	ctx, cancel := context.WithCancel(context.Background())
 	defer cancel()
 	if p.CancelAfter == 0 {
 		cancel()
@@ -637,11 +638,7 @@ func Run(sub Subject, nest NestFn, d *FaultDB, p Plan) (out Outcome) {
 		out.BodyRuns++
 		out.BodyEnd = "panic" // until proven otherwise
 		for i, sp := range p.Stmts {
-			err, reaches := doStmt(bctx, s, nest, d, i, sp, &out)
-			cancelled := p.CancelAfter >= 0 && i >= p.CancelAfter
-			if reaches && !cancelled {
-				out.Issued++
-			}
+			err := doStmt(bctx, s, nest, i, sp, &out)
 			if (err != nil) != (sp.Fail != FailNone) {
 				out.Harness = append(out.Harness, fmt.Sprintf("statement %d (%s): plan says %s, got error %v",
 					i, sp.Kind, failNames[sp.Fail], err))
@@ -704,10 +701,8 @@ func Run(sub Subject, nest NestFn, d *FaultDB, p Plan) (out Outcome) {
 	return out
 }
 
-type ctxKey struct{}
-
-// doStmt issues statement i; reaches says whether a driver-level statement call is expected.
-func doStmt(ctx context.Context, s sqlx.Session, nest NestFn, d *FaultDB, i int, sp Stmt, out *Outcome) (err error, reaches bool) {
+// doStmt issues statement i of the body on the session and returns its error.
+func doStmt(ctx context.Context, s sqlx.Session, nest NestFn, i int, sp Stmt, out *Outcome) (err error) {
 	q := fmt.Sprintf("S%d", i)
 	if sp.Fail != FailNone && !sp.Kind.alwaysFails() {
 		if sp.AtPrepare {
@@ -716,7 +711,6 @@ func doStmt(ctx context.Context, s sqlx.Session, nest NestFn, d *FaultDB, i int,
 			q += " !fail"
 		}
 	}
-	reaches = true
 	var one int64
 	var many []int64
 	switch sp.Kind {
@@ -758,7 +752,6 @@ func doStmt(ctx context.Context, s sqlx.Session, nest NestFn, d *FaultDB, i int,
 			st.Close()
 		}
 	case KNested:
-		reaches = false
 		sub := nest(s)
 		if i%2 == 0 {
 			err = sub.Transact(func(sqlx.Session) error { out.InnerRuns++; return nil })
@@ -766,7 +759,7 @@ func doStmt(ctx context.Context, s sqlx.Session, nest NestFn, d *FaultDB, i int,
 			err = sub.TransactCtx(ctx, func(context.Context, sqlx.Session) error { out.InnerRuns++; return nil })
 		}
 	}
-	return err, reaches
+	return err
 }
 
 // ---------------------------------------------------------------------------- oracle
